@@ -4,7 +4,11 @@ argument). TLC enumerates every chain of casts from every small initial buffer (
 model; the harness executes each chain on real palette types of that channel count, building and reading colours by
 field name, and records form, unit, length, observed capacity, address identity, flat contents (bit-exact tokens),
 error kind and size_of/align_of after every call; TraceCast.tla validates every recorded call against the model and
-the field names against the specification's declared-order table."""
+the field names against the specification's declared-order table.
+quick: all chains of depth 1 on every type, depth 2 on two types per chain (rotating). thorough: depth 2 on every type,
+depth 3 on two types per chain, and a sample of the depth-1 chains replayed under Miri as an undefined-behaviour monitor.
+A cast that kills the process (non-unwinding precondition check of std, signal) is located with --crashlog and reported
+as a violating event."""
 import json, os, re, time
 from common import *
 
